@@ -231,6 +231,21 @@ func TestC15(t *testing.T) {
 				Host: HostConf{Allowed: []string{"netrpc", "grpc"}, TLS: "none", Launch: "cmd", Legacy: 1}, Ops: ops})
 		}
 	}
+	// a long-lived host: it reattached to a plugin and watched it for a while, that plugin is shut down, and later the host
+	// reattaches to another plugin process that the kernel gave the same pid (pids are recycled); the second plugin is
+	// the one that is used, watched and killed
+	nTest := len(cells)
+	for _, proto := range []string{"netrpc", "grpc"} {
+		for _, watch := range []string{"1500", "300"} {
+			cells = append(cells, Cell{
+				Name:   fmt.Sprintf("recycled-pid %s first plugin watched for %s ms through a reattached client", proto, watch),
+				Plugin: PluginConf{CookieKey: cookieKey, CookieValue: cookieVal, Legacy: 1, LegacyProto: proto, GRPCServer: true, TLS: "none"},
+				Host:   HostConf{Allowed: []string{"netrpc", "grpc"}, TLS: "none", Launch: "cmd", Legacy: 1},
+				Ops: []string{"new", "start", "client", "dispense", "reattach:0", "start", "client", "dispense", "sleep:" + watch, "kill:1", "pidgone", "kill:0",
+					"spawnsamepid", "start", "client", "dispense", "set:7", "sleep:2500", "exited?", "get", "ping", "kill", "pidgone"},
+			})
+		}
+	}
 	results := runCells(base, cells)
 	out := &enumResult{Exhaustive: true, Outcomes: map[string]int{}, States: len(states), Transitions: transitions * 2}
 	for i, r := range results {
@@ -292,6 +307,38 @@ func TestC15(t *testing.T) {
 				bad("plugin process still alive at the end of the history")
 			}
 			out.Outcomes["real-process"]++
+		} else if i >= nTest {
+			skipped := ""
+			for _, o := range r.Ops {
+				if strings.HasPrefix(o.Val, "skipped:") {
+					skipped = o.Val
+				}
+			}
+			if skipped != "" {
+				out.Notes = append(out.Notes, c.Name+": undecided, "+skipped)
+				out.Outcomes["recycled-pid undecided"]++
+				continue
+			}
+			second := false
+			for _, o := range r.Ops {
+				if o.Op == "spawnsamepid" {
+					second = true
+				}
+				switch {
+				case o.Err != "":
+					bad("%s failed: %s", o.Op, o.Err)
+				case o.Op == "pidgone" && o.Val != "true":
+					bad("plugin process still alive 10 s after Kill (second plugin: %v)", second)
+				case o.Op == "exited?" && o.Val != "false":
+					bad("the client reattached to the second plugin reports it as exited while it is serving")
+				case o.Op == "get" && o.Val != "7":
+					bad("read %s through the client reattached to the second plugin, wrote 7", o.Val)
+				}
+			}
+			if r.PluginAlive {
+				bad("plugin process still alive at the end of the history")
+			}
+			out.Outcomes["recycled-pid"]++
 		} else {
 			// test mode: nothing may fail; the server is still serving after Kill; cancel closes CloseCh
 			for k, o := range r.Ops {
